@@ -8,12 +8,13 @@
 
 /* ---- scripted octet source / chunk sink ----------------------------- */
 
-struct osrc { const unsigned char *p; size_t n, pos; };
+struct osrc { const unsigned char *p; size_t n, pos; size_t failat; int failwith; bool failed; };
 
 static int
 osrc_get(void *drv, void *data)
 {
     struct osrc *s = drv;
+    if (s->failwith != 0 && !s->failed && s->pos == s->failat) { s->failed = true; return s->failwith; }
     if (s->pos >= s->n) return -ENODATA;
     *(unsigned char *)data = s->p[s->pos++];
     return 1;
@@ -100,6 +101,33 @@ vi_op(int argc, char **argv)
         else rc = varint_u64_from_source(&src, &u);
         print_dec_result(rc, ty, u);
         if (rc >= 0) printf(" taken=%zu", drv.pos);
+        free(mem);
+    } else if (strcmp(op, "vi.decsrcb") == 0 && argc == 5) {
+        /* the source answers <err> once, in front of octet <k>, and carries on afterwards.  Left view: what the decoder
+         * answers.  Right view: `sound` when it either hands that error on or answers exactly what it answers for the
+         * undisturbed source (same verdict, value, octets taken) - never a value put together across the gap */
+        size_t n;
+        unsigned char *mem = parse_hex(argv[2], &n);
+        if (!mem) { printf("bad-op"); return; }
+        size_t k = parse_u64(argv[3]);
+        int e = strcmp(argv[4], "eagain") == 0 ? -EAGAIN : strcmp(argv[4], "eintr") == 0 ? -EINTR : strcmp(argv[4], "eio") == 0 ? -EIO : 0;
+        if (e == 0) { free(mem); printf("bad-op"); return; }
+        int rcs[2]; uint64_t us[2]; size_t taken[2];
+        for (int round = 0; round < 2; round++) {
+            struct osrc drv = { mem, n, 0, k, round == 0 ? e : 0, false };
+            Source src = OCTET_SOURCE_INIT(osrc_get, &drv);
+            uint64_t u = 0; uint32_t u32v = 0; int32_t s32v = 0; int64_t s64v = 0;
+            int rc;
+            if (is32 && sgn) { rc = varint_s32_from_source(&src, &s32v); u = (uint32_t)s32v; }
+            else if (is32) { rc = varint_u32_from_source(&src, &u32v); u = u32v; }
+            else if (sgn) { rc = varint_s64_from_source(&src, &s64v); u = (uint64_t)s64v; }
+            else rc = varint_u64_from_source(&src, &u);
+            rcs[round] = rc; us[round] = rc >= 0 ? u : 0; taken[round] = drv.pos;
+        }
+        print_dec_result(rcs[0], ty, us[0]);
+        if (rcs[0] >= 0) printf(" taken=%zu", taken[0]);
+        bool sound = rcs[0] == e || (rcs[0] == rcs[1] && us[0] == us[1] && (rcs[0] < 0 || taken[0] == taken[1]));
+        printf(" ## %s", sound ? "sound" : "a-value-across-the-gap");
         free(mem);
     } else if (strcmp(op, "vi.tosink") == 0 && argc == 3) {
         struct csnk drv = { .n = 0 };
@@ -306,6 +334,16 @@ static const struct bf_set_entry bf_sets[] = {
     SET_ROW(f, 32, 0, 32) SET_ROW(f, 64, 0, 64)
 };
 
+/* exact-size block that starts on a page boundary: an offset of 4089..4095 puts a datum across the end of a page, an
+ * address-dependent fast path (wide loads away from page ends, octet loops near them) then takes its rare branch */
+static unsigned char *
+page_block(size_t size)
+{
+    void *p = NULL;
+    if (posix_memalign(&p, 4096, size ? size : 1) != 0) { printf("bad-op"); exit(3); }
+    return p;
+}
+
 static void
 bf_op(int argc, char **argv)
 {
@@ -317,7 +355,7 @@ bf_op(int argc, char **argv)
         if (!octs) { printf("bad-op"); return; }
         for (size_t i = 0; i < sizeof bf_refs / sizeof *bf_refs; i++) {
             if (strcmp(bf_refs[i].name, argv[1]) == 0 && (size_t)bf_refs[i].nbytes == n) {
-                unsigned char *blk = malloc(align + n);          /* exact size, value at offset align */
+                unsigned char *blk = page_block(align + n);      /* exact size, value at offset align of a page */
                 memcpy(blk + align, octs, n);
                 uint64_t v = bf_refs[i].call(blk + align);
                 snprintf(out, sizeof out, "%0*" PRIx64, bf_refs[i].rw / 4, v);
@@ -334,7 +372,7 @@ bf_op(int argc, char **argv)
         for (size_t i = 0; i < sizeof bf_sets / sizeof *bf_sets; i++) {
             if (strcmp(bf_sets[i].name, argv[1]) == 0) {
                 size_t n = (size_t)bf_sets[i].nbytes;
-                unsigned char *blk = malloc(align + n);
+                unsigned char *blk = page_block(align + n);
                 memset(blk, 0xee, align + n);
                 unsigned char *ret = bf_sets[i].call(blk + align, v);
                 bool pre = true;
